@@ -72,6 +72,64 @@ def _stored_locals(fn: ast.FunctionDef) -> list[str]:
     return out
 
 
+def _tokens(fn: ast.AST) -> list[str]:
+    """Identifier / literal vocabulary of a function body: what it talks about, regardless of its own name and layout."""
+    out = set()
+    for n in ast.walk(fn):
+        if isinstance(n, ast.Name):
+            out.add(n.id)
+        elif isinstance(n, ast.Attribute):
+            out.add("." + n.attr)
+        elif isinstance(n, ast.Constant) and isinstance(n.value, (str, int, float)) and not isinstance(n.value, bool) and len(str(n.value)) <= 40:
+            out.add(repr(n.value))
+        elif isinstance(n, ast.keyword) and n.arg:
+            out.add(n.arg + "=")
+    return sorted(out)
+
+
+def _attr_profiles(cls: ast.ClassDef) -> dict[str, list[str]]:
+    """attribute -> where and how the class uses it (method name + load/store + the call made on it, if any)."""
+    prof: dict[str, set[str]] = {}
+    for m in cls.body:
+        if not isinstance(m, FuncNode):
+            continue
+        ps = _params(m)
+        me = ps[0] if ps else None
+        for n in ast.walk(m):
+            if isinstance(n, ast.Attribute) and isinstance(n.value, ast.Name) and n.value.id == me:
+                prof.setdefault(n.attr, set()).add(f"{m.name}:{'S' if isinstance(n.ctx, ast.Store) else 'L'}")
+            if isinstance(n, ast.Attribute) and isinstance(n.value, ast.Attribute) and isinstance(n.value.value, ast.Name) and n.value.value.id == me:
+                prof.setdefault(n.value.attr, set()).add(f"{m.name}:.{n.attr}")
+            if isinstance(n, ast.Assign) and len(n.targets) == 1 and isinstance(n.targets[0], ast.Attribute) and isinstance(n.targets[0].value, ast.Name) and n.targets[0].value.id == me:
+                prof.setdefault(n.targets[0].attr, set()).add(f"{m.name}:=" + " ".join(ast.unparse(n.value).split())[:60])
+    return {k: sorted(v) for k, v in prof.items()}
+
+
+def _jaccard(a, b) -> float:
+    a, b = set(a), set(b)
+    return len(a & b) / len(a | b) if a | b else 0.0
+
+
+def _mutual_best(removed: list[str], added: list[str], old_sig: dict, new_sig: dict, floor: float = 0.45) -> dict[str, str]:
+    """new -> old for the pairs that are each other's most similar candidate (similarity of what they mention), above a floor and with a margin."""
+    out: dict[str, str] = {}
+    if not removed or not added:
+        return out
+    sim = {(r, a): _jaccard(old_sig.get(r, []), new_sig.get(a, [])) for r in removed for a in added}
+    for a in added:
+        ranked = sorted(removed, key=lambda r: -sim[(r, a)])
+        best = ranked[0]
+        if sim[(best, a)] < floor:
+            continue
+        if len(ranked) > 1 and sim[(ranked[1], a)] > sim[(best, a)] - 0.05:
+            continue
+        back = sorted(added, key=lambda x: -sim[(best, x)])
+        if back[0] != a or (len(back) > 1 and sim[(best, back[1])] > sim[(best, a)] - 0.05):
+            continue
+        out[a] = best
+    return out
+
+
 def _first_defs(fn: ast.FunctionDef) -> dict[str, str]:
     """local -> text of the right-hand side of its first plain assignment (used to recognise a renamed local by what it holds)."""
     out: dict[str, str] = {}
@@ -96,7 +154,8 @@ def inventory_of(mods: dict[str, Module]) -> dict:
     inv: dict = {"modules": {}}
     for name, mod in sorted(mods.items()):
         m: dict = {"functions": {}, "classes": {}, "locals": {q: _stored_locals(fn) for q, _, fn in _functions_of(mod)},
-                   "local_defs": {q: _first_defs(fn) for q, _, fn in _functions_of(mod)}}
+                   "local_defs": {q: _first_defs(fn) for q, _, fn in _functions_of(mod)},
+                   "tokens": {q: _tokens(fn) for q, _, fn in _functions_of(mod)}}
         for node in mod.tree.body:
             if isinstance(node, FuncNode):
                 m["functions"][node.name] = _params(node)
@@ -104,6 +163,7 @@ def inventory_of(mods: dict[str, Module]) -> dict:
                 m["classes"][node.name] = {
                     "methods": {x.name: _params(x) for x in node.body if isinstance(x, FuncNode) and not any("setter" in ast.unparse(d) for d in x.decorator_list)},
                     "attrs": _class_attrs(node),
+                    "attr_profiles": _attr_profiles(node),
                 }
         inv["modules"][name] = m
     return inv
@@ -124,12 +184,16 @@ def _pair(removed: list[str], added: list[str], sig_old: dict[str, list[str]] | 
     if not removed or not added:
         return out
     if sig_old is not None and sig_new is not None:
-        # functions: the same parameter list, unique on both sides
+        # functions: the same parameter list; several with one parameter list are paired in definition order
+        sigs = []
         for a in added:
-            cands = [r for r in removed if sig_old[r] == sig_new[a] and r not in out.values()]
-            same = [x for x in added if sig_new[x] == sig_new[a]]
-            if len(cands) == 1 and len(same) == 1:
-                out[a] = cands[0]
+            if sig_new[a] not in sigs:
+                sigs.append(sig_new[a])
+        for sg in sigs:
+            rs = [r for r in removed if sig_old[r] == sg]
+            as_ = [a for a in added if sig_new[a] == sg]
+            if len(rs) == len(as_):
+                out.update(dict(zip(as_, rs)))
         rest_r = [r for r in removed if r not in out.values()]
         rest_a = [a for a in added if a not in out]
         if len(rest_r) == 1 and len(rest_a) == 1 and len(sig_old[rest_r[0]]) == len(sig_new[rest_a[0]]):
@@ -152,20 +216,55 @@ def compute_renames(mods: dict[str, Module], inv: dict) -> dict[str, str]:
                 conflicts.add(new)
             ren[new] = old
 
+    def priv(xs) -> list[str]:
+        return [x for x in xs if _private(x)]
+
+    # pass 1: functions and methods, by what their bodies mention (their own names are masked out)
     for mname, old_m in inv["modules"].items():
         new_m = cur["modules"].get(mname)
         if new_m is None:
             continue
         of, nf = old_m["functions"], new_m["functions"]
-        add(_pair([x for x in of if x not in nf], [x for x in nf if x not in of], of, nf))
+        rem, add_ = priv([x for x in of if x not in nf]), priv([x for x in nf if x not in of])
+        add(_mutual_best(rem, add_, {r: old_m["tokens"].get(r, []) for r in rem}, {a: new_m["tokens"].get(a, []) for a in add_}))
         for cname, old_c in old_m["classes"].items():
             new_c = new_m["classes"].get(cname)
             if new_c is None:
                 continue
             om, nm = old_c["methods"], new_c["methods"]
-            add(_pair([x for x in om if x not in nm], [x for x in nm if x not in om], om, nm))
+            rem, add_ = priv([x for x in om if x not in nm]), priv([x for x in nm if x not in om])
+            # vocabulary without the renamed names themselves (a renamed helper calls its renamed sibling)
+            mask = {"." + x for x in [*rem, *add_]} | set(rem) | set(add_)
+            osig = {r: [t for t in old_m["tokens"].get(f"{cname}.{r}", []) if t not in mask] for r in rem}
+            nsig = {a: [t for t in new_m["tokens"].get(f"{cname}.{a}", []) if t not in mask] for a in add_}
+            add(_mutual_best(rem, add_, osig, nsig))
+    # pass 2: attributes, by where and how the class uses them (method names already mapped back)
+    back = dict(ren)
+    for mname, old_m in inv["modules"].items():
+        new_m = cur["modules"].get(mname)
+        if new_m is None:
+            continue
+        for cname, old_c in old_m["classes"].items():
+            new_c = new_m["classes"].get(cname)
+            if new_c is None:
+                continue
             oa, na = old_c["attrs"], new_c["attrs"]
-            add(_pair([x for x in oa if x not in na], [x for x in na if x not in oa]))
+            rem, add_ = priv([x for x in oa if x not in na]), priv([x for x in na if x not in oa])
+            if not rem or not add_:
+                continue
+            mask = set(rem) | set(add_)
+
+            def norm(profile: list[str], names: dict[str, str]) -> list[str]:
+                out = []
+                for item in profile:
+                    meth, _, rest = item.partition(":")
+                    for x in mask:
+                        rest = rest.replace(x, "_")
+                    out.append(f"{names.get(meth, meth)}:{rest}")
+                return out
+            osig = {r: norm(old_c.get("attr_profiles", {}).get(r, []), {}) for r in rem}
+            nsig = {a: norm(new_c.get("attr_profiles", {}).get(a, []), back) for a in add_}
+            add(_mutual_best(rem, add_, osig, nsig, floor=0.34))
     for c in conflicts:
         ren.pop(c, None)
     # a rename back must not collide with a name that still exists next to the new one
@@ -686,9 +785,10 @@ class _Forward:
                 old = old_m["locals"].get(q)
                 if old is None:
                     continue
-                for _ in range(6):
+                self._split_unpack(fn, old)
+                for _ in range(60):
                     new = [x for x in _stored_locals(fn) if x not in old]
-                    if not new or not any(self._try(mod, q, fn, x) for x in new):
+                    if not new or not any([self._try(mod, q, fn, x) for x in new]):
                         break
 
     def _blocks(self, node: ast.AST):
@@ -702,6 +802,36 @@ class _Forward:
         if isinstance(node, ast.Match):
             for c in node.cases:
                 yield c.body
+
+    def _split_unpack(self, fn: ast.FunctionDef, old: list[str]) -> None:
+        """`a, b = e` on new locals with `e` a plain reference (or a tuple display) becomes `a = e[0]; b = e[1]`, so that each part can be substituted."""
+        work: list[ast.AST] = [fn]
+        while work:
+            node = work.pop()
+            for b in self._blocks(node):
+                i = 0
+                while i < len(b):
+                    st = b[i]
+                    if isinstance(st, ast.Assign) and len(st.targets) == 1 and isinstance(st.targets[0], (ast.Tuple, ast.List)) \
+                            and all(isinstance(t, ast.Name) and t.id not in old for t in st.targets[0].elts):
+                        tg = st.targets[0].elts
+                        v = st.value
+                        parts = None
+                        if isinstance(v, (ast.Tuple, ast.List)) and len(v.elts) == len(tg) and not any(
+                                isinstance(x, ast.Name) and x.id in {t.id for t in tg} for e_ in v.elts for x in ast.walk(e_)) and all(_pure(e_) for e_ in v.elts):
+                            parts = list(v.elts)
+                        elif _simple(v):
+                            parts = [ast.Subscript(value=_clone(v), slice=ast.Constant(value=k), ctx=ast.Load()) for k in range(len(tg))]
+                        if parts is not None:
+                            new_stmts = [ast.copy_location(ast.Assign(targets=[ast.Name(id=t.id, ctx=ast.Store())], value=p_), st) for t, p_ in zip(tg, parts)]
+                            for ns in new_stmts:
+                                ast.fix_missing_locations(ns)
+                            b[i:i + 1] = new_stmts
+                            i += len(new_stmts)
+                            continue
+                    if not isinstance(st, (*FuncNode, ast.ClassDef)):
+                        work.append(st)
+                    i += 1
 
     def _find_def(self, fn: ast.FunctionDef, name: str):
         """(block, index) of the single `name = e` statement, or None."""
@@ -791,7 +921,7 @@ class _Forward:
                 if isinstance(n, (*FuncNode, ast.Lambda)) and any(isinstance(x, ast.Name) and x.id == name for x in ast.walk(n)):
                     return False
         last = max(where[id(n)] for n in loads)
-        if len(loads) > 1 and self._mutated(later, name):
+        if len(loads) > 1 and not _simple(e) and self._mutated(later, name):
             return False
         names, attrs = _reads(e)
         names.discard(name)
